@@ -11,6 +11,7 @@ mod corpus;
 mod trace;
 mod gl;
 mod ints;
+mod model;
 mod props;
 mod rng;
 mod util;
